@@ -142,10 +142,10 @@ func (p *Path) TreePrefix() string {
 		switch {
 		case p.parent != nil:
 			// The parent is a tag.
-			return fmt.Sprintf("%s^{%s}", p.parent.BestPath(), p.objectType)
+			return fmt.Sprintf("%s^{%s}", p.parent.revision(), p.objectType)
 		case p.relativePath != "":
-			if _, braces := scanRevision(p.relativePath); braces {
-				// See `rootTreePrefix()`.
+			if colon, braces := scanRevision(p.relativePath); colon != -1 || braces {
+				// See `rootTreePrefix()` and `revision()`.
 				return p.OID.String() + ":"
 			}
 			return p.relativePath + ":"
@@ -209,7 +209,7 @@ func (p *Path) Path() string {
 		case p.parent != nil:
 			if p.relativePath == "" {
 				// This is a top-level tree or blob.
-				return fmt.Sprintf("%s^{%s}", p.parent.BestPath(), p.objectType)
+				return fmt.Sprintf("%s^{%s}", p.parent.revision(), p.objectType)
 			} else {
 				// The parent is also a tree.
 				return p.parent.TreePrefix() + p.relativePath
@@ -223,7 +223,7 @@ func (p *Path) Path() string {
 		switch {
 		case p.parent != nil:
 			// The parent is a tag.
-			return fmt.Sprintf("%s^{%s}", p.parent.BestPath(), p.objectType)
+			return fmt.Sprintf("%s^{%s}", p.parent.revision(), p.objectType)
 		case p.relativePath != "":
 			return p.relativePath
 		default:
@@ -232,6 +232,22 @@ func (p *Path) Path() string {
 	default:
 		return ""
 	}
+}
+
+// revision returns a name for this object to which `^{<type>}` can be
+// appended. That is not possible for a name of the form
+// `<rev>:<path>` (e.g., a commit that was specified via a submodule
+// link, like `HEAD:sub`), because Git would take the suffix for a part
+// of the path; the OID is used then.
+func (p *Path) revision() string {
+	path := p.Path()
+	if path == "" {
+		return p.OID.String()
+	}
+	if colon, _ := scanRevision(path); colon != -1 {
+		return p.OID.String()
+	}
+	return path
 }
 
 // Return some human-readable path for this object, even if it's just
